@@ -37,10 +37,12 @@ def programs(tier):
     out.append(("pq4", Contract(methods=tuple(base + cq[:2]), interfaces=(i2, i0), entry_points=""), {"If0": {"Self::Rt": "Coin"}, "If2": {"Self::AmountT": "u64", "Self::LabelT": "String"}}))
     B = "sylvia::serde::Serialize + sylvia::serde::de::DeserializeOwned + std::fmt::Debug + Clone + PartialEq + sylvia::schemars::JsonSchema + 'static"
     gq = [q("g_direct", "TA"), q("g_vec", "Vec<TA>"), q("g_plain", "u32"), q("g_arg", "String", (Arg("x", "TB"),)), q("g_tup", "(TA, u32)"), q("g_arr", "[TA; 2]"),
-          q("g_opt_tup", "Option<(u8, TA)>")]
-    out.append(("pq3", Contract(methods=tuple(base + gq), generics=(("TA", ""), ("TB", "")), where=("TA: " + B, "TB: " + B), concrete=("Inner", "u64"),
-                                entry_points="generics<Inner, u64>", new="pub const fn new() -> Self { Self { _p: std::marker::PhantomData } }", interfaces=(i1, i2)),
-                {"Ct": {"TA": "Inner", "TB": "u64"}, "If2": {"Self::AmountT": "u64", "Self::LabelT": "String"}}))
+          q("g_opt_tup", "Option<(u8, TA)>"),
+          # the response type given only through resp= (the signature spells an aliased result): it still is a use of the parameter
+          q("g_resp_attr", "TD", msg_params=", resp=TD", ret="GenRes<TD>")]
+    out.append(("pq3", Contract(methods=tuple(base + gq), generics=(("TA", ""), ("TB", ""), ("TD", "")), where=("TA: " + B, "TB: " + B, "TD: " + B), concrete=("Inner", "u64", "String"),
+                                entry_points="generics<Inner, u64, String>", new="pub const fn new() -> Self { Self { _p: std::marker::PhantomData } }", interfaces=(i1, i2)),
+                {"Ct": {"TA": "Inner", "TB": "u64", "TD": "String"}, "If2": {"Self::AmountT": "u64", "Self::LabelT": "String"}}))
     if tier == "thorough":
         for j, ty in enumerate(["u32", "String", "Inner", "Vec<Inner>", "En", "Uint128", "Binary", "Addr", "Coin", "(u8, String)", "Option<u32>", "Vec<String>"]):
             for n in (0, 1, 2):
@@ -140,7 +142,7 @@ def run(tier):
     for pid, c, subst in progs:
         two = pid in ("pq0", "pq1")
         text = e2.render_program(pid, c, glue=glue(c, subst, two=two))
-        text = text.replace("use vsupport::{json, Value};", "use vsupport::{json, Value};\ntype AliasRes = StdResult<OtherResp>;")
+        text = text.replace("use vsupport::{json, Value};", "use vsupport::{json, Value};\ntype AliasRes = StdResult<OtherResp>;\ntype GenRes<T> = StdResult<T>;")
         if two:
             text = text.replace("pub struct Ct;", OTHER_MOD + "\npub struct Ct;", 1)
         cp.add(pid, text)
